@@ -174,12 +174,16 @@ def materialise(wd, d):
                 dk = r.get("decoy")
                 if dk == "lowmapq":
                     reads[-1]["mapq"] = rng.randint(0, mapq_thr - 1)
+                elif dk == "foreignrg":
+                    reads[-1]["rg"] = "rg_ctrl"         # a read group WITHOUT an SM field: belongs to no sample
                 elif dk:
                     reads[-1]["flag"] = {"secondary": 256, "duplicate": 1024, "supplementary": 2048}[dk]
     if mapq_thr != 20:
         for x in reads:
             x.setdefault("mapq", rng.choice([mapq_thr, mapq_thr, mapq_thr + 1, 60]))
     rgs = [{"ID": "rg_" + s, "SM": s} for s in samples]
+    if any(r_.get("decoy") == "foreignrg" for r_ in wd.get("decoys", [])):
+        rgs.append({"ID": "rg_ctrl", "LB": "spike_in"})
     if wd.get("opts", {}).get("ignore_rg"):
         # --ignore-read-groups (one sample): read groups are absent or name somebody else
         rgs = [{"ID": "rg_other", "SM": "somebody_else"}]
@@ -487,7 +491,8 @@ def add_decoys(rng, w, p_each=0.5):
             n = r["last"] - r["first"] + 1
             dec.append({"sample": r["sample"], "chrom": r["chrom"], "hap": r["hap"], "first": r["first"], "last": r["last"], "gap": None,
                         "alleles": [rng.randint(0, 1) for _ in range(n)], "copies": rng.randint(1, 2),
-                        "decoy": rng.choice(["lowmapq", "secondary", "duplicate", "supplementary"])})
+                        "decoy": rng.choice(["lowmapq", "secondary", "duplicate", "supplementary"] +
+                                            (["foreignrg", "foreignrg"] if len(w["samples"]) == 1 and not o.get("ignore_rg") else []))})
     w["decoys"] = dec
     return w
 
